@@ -73,6 +73,8 @@ def run_job(job):
             loc = {"kind": "unknown"}
         if loc["kind"] == "inserted" and (loc.get("tag") or "").startswith("ob:"):
             ob = loc["tag"][3:]
+        elif loc["kind"] == "inserted" and (loc.get("tag") or "").startswith("R5:") and "." in (loc.get("tag") or ""):
+            ob = "inv:" + loc["tag"][3:]
         elif loc["kind"] == "inserted" and loc.get("tag") == "contract":
             ob = "post-or-contract"
         elif loc["kind"] == "repo":
